@@ -631,6 +631,7 @@ def execute_history_c12(spec, camp):
         out = outputs_by_lang(trace)
         alltext = {lang: "\n".join(files.values()) for lang, files in out.items()}
         blocks_now = {}
+        tainted_lang = {}
         amb_now = {}
         for lang in langs:
             uniq, amb, skels = collect_blocks(out.get(lang, {}))
@@ -683,6 +684,7 @@ def execute_history_c12(spec, camp):
             if workflow == "feedback" and fed.get(lang):
                 supplied += [b for (pp, b) in prev_blocks.get(lang, {}).values()]
             tainted = any(l.rstrip().endswith("+") for b in supplied for l in b)
+            tainted_lang[lang] = tainted
             if tainted:
                 probe("tainted_by_trailing_plus")
             # expected body per block
@@ -741,6 +743,8 @@ def execute_history_c12(spec, camp):
         if prev_out is not None and workflow == "feedback" and dirty_since_regen <= {"EDIT_GEN", "EDIT_OUTSIDE"}:
             probe("fixed_point_checked")
             for lang in langs:
+                if tainted_lang.get(lang):
+                    continue  # a swallowed trailing "+" shifts indentation, hence line breaks, of the whole file
                 for p in sorted(out.get(lang, {})):
                     if p in prev_out.get(lang, {}):
                         _, s1 = parse_blocks(prev_skel_src[lang][p])
@@ -921,7 +925,9 @@ class C12Engine(object):
                 self.stats["harness_errors"] += 1
                 self.harness_error_samples.append(("minimised history did not replay", json.dumps(small)[:300]))
                 continue
-            sig = self.signature(conf)
+            # the signature of the violation of *this* class (a run may also show recorded findings)
+            vk = [x for x in conf["violations"] if (x["inv"], x["kind"]) == key][0]
+            sig = self.signature({"violations": [vk]})
             if sig in seen:
                 continue
             seen.add(sig)
@@ -933,7 +939,7 @@ class C12Engine(object):
                 "digest": conf.get("digest"), "minimiser_executions": m.used,
                 "original_length": len(spec["ops"]), "minimised_length": len(small["ops"]),
                 "occurrences_in_batch": len(classes[key])})
-            v = conf["violations"][0]
+            v = vk
             reporter.add(sig, rp, "%s %s lib=%s detail=%s" % (v["inv"], v["kind"], small["lib"],
                                                              json.dumps(v.get("detail"))[:260]))
             done += 1
